@@ -106,4 +106,53 @@ PROPS = {
         "assumptions": ["KeyOK: equal (edit time, pack id) implies equal operations", "no uint64 overflow of Lamport times"],
         "gen_facts": ["Gen.Dag.readComparisons = the comparison list the model transcribes"],
     },
+    "C01": {
+        "level_text": "PARTIAL. Proved for unbounded histories: what a replica shows for a bug is a function of the multiset of non-empty "
+                      "operation packs its head reaches (read_ops_determined, convergence): merge commits, DAG shape, exchange order and "
+                      "enumeration orders are irrelevant; together with C02 (each merge keeps both sides' packs and stays readable clock-"
+                      "wise) and C03. Not proved as one theorem: that pull/push rounds bring all replicas to reach the same packs (system-"
+                      "level invariant over replicas and the go-git transport); this is validated by replica schedules (2..3 go-git "
+                      "replicas + bare remote, unequal branch lengths, cross-merges, forced clock ties) with a convergence oracle.",
+        "level_note": "Trusted: Lean kernel, harness (replica engine, independent decoder, oracle). KeyOK: equal (edit time, pack id) implies "
+                      "equal operations. go-git's transport (all-or-nothing push, fast-forward-only tracking refs) is exercised, not modelled. "
+                      "HopOK: a replica whose clock is far ahead (> 10^6) of an old bug's last edit writes a commit every reader refuses — "
+                      "recorded under C05 (known finding).",
+        "required_theorems": ["read_ops_determined", "merge_commits_irrelevant", "convergence", "convergence_enum_indep"],
+        "slices": ["C01"],
+        "rule": "random schedules of {new bug, edit with 1..3 operations by any of 3 authors (several commits when authors alternate), "
+                "push, pull} on 2..3 go-git replicas sharing a bare remote, starting from equal clocks (ties) and a shared bug, then "
+                "pull/push rounds to quiescence; oracle: all replicas list the same operation ids in the same order and compile the same "
+                "snapshot; every replica's final view of every bug is also a `read` case for the model; non-trivial = DAG of > 2 commits; "
+                "distinct = distinct decoded DAGs",
+        "trusted_base": [KERNEL, TIE, "model: GitBugModel.Dag (read, opsOf) and Lemmas.PackSort", "go-git transport exercised, not modelled"],
+        "assumptions": ["KeyOK", "the replicas' identities are known everywhere before bugs are exchanged (the scenario distributes them first)"],
+        "gen_facts": ["Gen.Dag.readComparisons (see C03)"],
+        "timeout": {"quick": 900, "thorough": 7200},
+    },
+    "C02": {
+        "level_text": "FULL on the merge decision logic (model of dag.merge): unreadable/invalid remote => invalid and nothing changes; absent "
+                      "locally => new at the remote head; equal or local ahead => nothing; remote ahead => fast-forward, updated; diverged => "
+                      "merge commit with parents (local, remote) at an edit time above the clock and above every edit time of both sides, "
+                      "updated, and the entity handed back is the one read at the new head; `nothing` iff the local head contains the remote "
+                      "head; the ref only becomes itself, the remote head or the merge commit; clocks never decrease. MergeAll = fold of "
+                      "merge (compared with the implementation on every pull of the replica schedules). PARTIAL: that the fast-forwarded or "
+                      "merged head *reaches* every pack of both sides relies on git ancestry (reach of a commit contains reach of its "
+                      "parents), which is checked by the oracle (no operation lost, every remote operation present), not proved.",
+        "level_note": "Trusted: Lean kernel, harness. The identity half of the property (identity merge reports) is C09's subject. The defect "
+                      "this check found (scenario 5 handed back the pre-merge local entity) was repaired in /repo, see known_findings.json.",
+        "required_theorems": ["mergeDiverged_spec", "mergeDiverged_local_unreadable", "mergeExisting_nothing", "mergeExisting_fastforward",
+                              "mergeExisting_diverged", "mergeExisting_nothing_iff", "merge_unreadable_remote", "merge_invalid_entity",
+                              "merge_new", "merge_existing", "merge_commit_dominates_remote", "merge_frame", "merge_clock_monotone",
+                              "gen_merge_comparisons"],
+        "slices": ["C02"],
+        "rule": "same replica schedules as C01; every pull (Fetch + MergeAll) is one case: the decoded commits reachable from all local and "
+                "remote-tracking heads, the (local, remote) head pairs in ListRefs order, the clocks; compared: per-entity status, new head, "
+                "merge commit parents and edit time, ids of the operations of the entity handed back, clocks after; oracle: every bug "
+                "readable after the pull, no local operation lost, every remote operation present, report consistent with the change, "
+                "handed-back entity = merged bug; non-trivial/distinct = distinct head-pair lists",
+        "trusted_base": [KERNEL, TIE, "model: GitBugModel.Dag (merge, mergeExisting, mergeDiverged, read, reach)"],
+        "assumptions": ["git ancestry: the commits reachable from a commit include those reachable from its parents (used by the oracle's reading of the result, not by a theorem)"],
+        "gen_facts": ["Gen.Dag.mergeComparisons = the scenario tests the model transcribes"],
+        "timeout": {"quick": 900, "thorough": 7200},
+    },
 }
